@@ -200,6 +200,14 @@ def run_case(asm, acc, case):
         prng.shuffle(names)
         preseed = {'labels': {n: 2 * prng.randrange(0, 3000) for n in names}}
         acc['ctr']['builds_with_leftover_label_table'] += 1
+    if case['kind'] == 'abs' and case['idx'] % 2:
+        # the absolute address comes in through the caller's label table (an external symbol) instead of a constant
+        ext = {it['name']: it['value'] for it in items if it['k'] == 'const' and it['name'] == 'TABS'}
+        items = [it for it in items if not (it['k'] == 'const' and it['name'] == 'TABS')]
+        lines = P.render(items)
+        src = '\n'.join(lines) + '\n'
+        preseed = {'labels': dict((preseed or {}).get('labels', {}), **ext)}
+        acc['ctr']['builds_with_an_external_target'] += 1
     mk = lambda: None if preseed is None else {'labels': dict(preseed['labels'])}  # noqa
     u = monitors.observe(asm, src, False, tap=False, preseed=mk())
     if not u.ok:
